@@ -39,6 +39,11 @@ def run(tier, seed, workers):
     big = set()
     for k in range(1, 201):
         big.update({10 ** k, 10 ** k + 1, 10 ** k - 1, 2 ** k, 2 ** k + 1, 2 ** k - 1})
+    # beyond every machine number type: past 2**63 (C long), 2**1024 (largest double), 10**400
+    for k in (512, 1000, 1023, 1024, 1025, 1100, 2000, 5000):
+        big.update({2 ** k, 2 ** k - 1, 2 ** k + 1})
+    for k in (300, 308, 309, 310, 400, 1000):
+        big.update({10 ** k, 10 ** k + 5})
     for d in sorted(big):
         for s in (d, -d):
             got = _try(point_difference_to_imps, s)
@@ -68,6 +73,16 @@ def run(tier, seed, workers):
             if got != R.imps(a + b):
                 c.violate(f'pair:{a}:{b}', f'score_to_imp({a},{b}) = {got!r}, scale of the sum {a + b} is {R.imps(a + b)}',
                           {'kind': 'pair', 'a': a, 'b': b})
+    # correlated large scores whose sum is small: the two-score form must add exactly (no floating point)
+    for base in (2 ** 53, 2 ** 53 + 1, 10 ** 20, 2 ** 64, 10 ** 300, 2 ** 1030):
+        for d in (-4001, -4000, -3999, -21, -20, -19, 0, 15, 19, 20, 21, 40, 45, 50, 3990, 3999, 4000):
+            for a, b in ((base + d, -base), (-base, base + d), (base, -base + d)):
+                got = _try(score_to_imp, a, b)
+                c.inc('evals')
+                c.inc('pairs')
+                if got != R.imps(a + b):
+                    c.violate(f'pair:large-cancelling:{d}', f'score_to_imp({a if abs(a) < 10 ** 25 else "base%+d" % (a - base if a > 0 else a + base)}, ...) with a sum of {a + b} = {got!r}, '
+                                                            f'the scale of the sum is {R.imps(a + b)}', {'kind': 'pair', 'a': a, 'b': b})
     sq = 300 if tier == 'thorough' else 120
     for a in range(-sq, sq + 1):
         for b in range(-sq, sq + 1):
